@@ -99,10 +99,12 @@ class BlockUploadServer:
 
 
 class BlockDownloadServer:
-    """conformant block-download server without loss, as the block-download stream sees it: announces a block size
+    """conformant block-download server behind a network that loses at most `losses_left` segments, each in a sub-block
+    that does not contain the last segment (none by default), as the block-download stream sees it: announces a block size
     of its choosing (1..127) in the initiate response and in every acknowledgement, accepts the segments of a sub-block
     in sequence, acknowledges a complete sub-block (or the one ended by the last segment) with the number of the last
-    segment, and on the end frame checks the count of unused bytes, the declared size and (when negotiated) the CRC
+    segment; after a gap it discards the rest of the sub-block and acknowledges the last segment received in sequence;
+    on the end frame it checks the count of unused bytes, the declared size and (when negotiated) the CRC
     before committing the value."""
     crc_cls = CrcXmodem
     RESPONSE_TIMEOUT = 0.3
@@ -121,6 +123,8 @@ class BlockDownloadServer:
         self.finished = False
         self.committed = None
         self.rx_cobid = 0x601
+        self.sent = 0             # segments the client has put on the wire in the running sub-block
+        self.losses_left = 0
 
     def illegal(self, why):
         rt.emit("illegal", why)
@@ -173,8 +177,21 @@ class BlockDownloadServer:
         cmd = request[0]
         seq = cmd & 0x7F
         last = (cmd & 0x80) != 0
-        if seq != self.seq + 1:
+        self.sent = self.sent + 1
+        if seq != self.sent:
             self.illegal("sequence number is not the successor of the previous one")
+        lost = False
+        if self.seq != self.sent - 1:
+            lost = True           # after a gap: out of sequence for the server, discarded
+        elif (self.losses_left > 0 and not last and self.declared is not None
+              and (len(self.buf) - 7 * self.seq) + 7 * self.blksize < self.declared):
+            if rt.choose_bool("lose-this-segment"):
+                self.losses_left = self.losses_left - 1
+                lost = True
+        if lost:
+            if last or self.sent >= self.blksize:
+                self.phase = 2
+            return
         self.seq = seq
         if last:
             # the client tells the number of valid bytes only in the end frame: keep all seven for now
@@ -191,6 +208,7 @@ class BlockDownloadServer:
             self.illegal("the client waits for an acknowledgement that is not due")
         ack = self.seq
         self.seq = 0
+        self.sent = 0
         self.blksize = rt.choose_int("blksize", 1, 127)
         self.phase = 3 if self.finished else 1
         return bytes([0xA2, ack, self.blksize, 0, 0, 0, 0, 0])
